@@ -1,4 +1,6 @@
 INIT Init
 NEXT Next
+CONSTANTS
+  CopyOnEntry = TRUE
 INVARIANT Inv
 CHECK_DEADLOCK FALSE
